@@ -84,7 +84,8 @@ def run_case(part, case, prange=None):
             part.violation(key + ":result-shape", case, {"type": type(passed).__name__})
             return
         pvars = list(passed)
-        for pattern in gcheck.patterns(m, prange):
+        pats = [tuple(bool(b) for b in pt) for pt in case["patterns"]] if "patterns" in case else gcheck.patterns(m, prange)
+        for pattern in pats:
             act = [e for e, b in zip(edges, pattern) if b]
             if not act:
                 exp = True
@@ -110,7 +111,59 @@ def run_case(part, case, prange=None):
                     c = dict(case)
                     c["pattern"] = list(pattern)
                     part.violation(key + ":raises-" + type(e).__name__, c, {"exception": repr(e)[:300]})
-    part.add("graphs", (n, tuple(edges)))
+    if "patterns" in case:
+        part.add("scale", (case["kind"], tuple(case["shape"]), str(case["ugp"])))
+    else:
+        part.add("graphs", (n, tuple(edges)))
+
+
+def region_boundary(h, w, cells):
+    """Edge flags (frame_edges order) of the boundary of a set of cells of an h x w frame."""
+    cells = set(cells)
+    flags = []
+    for a, y, x, _ in frame_edges(h, w):
+        if a == "h":
+            up, dn = (y - 1, x), (y, x)
+            flags.append(((up in cells) != (dn in cells)))
+        else:
+            lf, rt = (y, x - 1), (y, x)
+            flags.append(((lf in cells) != (rt in cells)))
+    return flags
+
+
+def scale_cases(tier):
+    """Long cycles / paths on larger frames (deterministic, not exhaustive)."""
+    out = []
+    big = [(3, 3), (4, 4), (2, 6), (5, 3)] if tier == "quick" else [(3, 3), (4, 4), (2, 6), (5, 3), (5, 5), (3, 8), (6, 6)]
+    for h, w in big:
+        segs = frame_edges(h, w)
+        allc = [(y, x) for y in range(h) for x in range(w)]
+        perimeter = region_boundary(h, w, allc)
+        corridor = region_boundary(h, w, graphref.serpentine(h, w))
+        pats = [perimeter, corridor, [False] * len(segs), region_boundary(h, w, [(0, 0)])]
+        if h >= 3 and w >= 3:
+            inner = region_boundary(h, w, [(1, 1)])
+            pats.append([a or b for a, b in zip(perimeter, inner)])  # two disjoint cycles
+            pats.append([a or b for a, b in zip(region_boundary(h, w, [(0, 0)]), region_boundary(h, w, [(h - 1, w - 1)]))])
+        k = perimeter.index(True)
+        broken = list(perimeter)
+        broken[k] = False
+        pats.append(broken)  # a long path (the perimeter minus one segment)
+        # Hamiltonian path through all lattice points
+        pts = graphref.boustrophedon(h + 1, w + 1)
+        W = w + 1
+        eidx = {frozenset(e[3]): i for i, e in enumerate(segs)}
+        ham = [False] * len(segs)
+        for a, b in zip(pts, pts[1:]):
+            ham[eidx[frozenset((a[0] * W + a[1], b[0] * W + b[1]))]] = True
+        pats.append(ham)
+        cut = list(ham)
+        cut[[i for i, v in enumerate(ham) if v][len(pts) // 2]] = False
+        pats.append(cut)  # two paths
+        for kind in ("cycle", "path"):
+            for ugp in ((False, True) if kind == "cycle" else (True,)):
+                out.append({"kind": kind, "shape": [h, w], "ugp": ugp, "cfg": False, "patterns": pats})
+    return out
 
 
 def cases_for(tier):
@@ -149,7 +202,7 @@ def cases_for(tier):
 
 def prepare(tier):
     global _CASES
-    _CASES = cases_for(tier)
+    _CASES = cases_for(tier) + scale_cases(tier)
     return _CASES
 
 
@@ -177,7 +230,8 @@ def main(tier, seed, only=None):
         "exploration",
         "all labelled loop-free multigraphs %s (multiplicity<=2; 3 for n=2) in up to 3 edge-list presentations%s; BoolGridFrame "
         "sizes %s; all 2^m edge subsets; single_cycle with auxiliary and native encodings (explicit flag and config default), "
-        "single_path in native form (non-native must raise RuntimeError).  Oracle: empty, or exactly one simple cycle / path "
+        "single_path in native form (non-native must raise RuntimeError).  Scale family (not exhaustive): on frames up to 4x4 / 2x6 (thorough 6x6) the perimeter, the boundary of the "
+        "serpentine corridor, two disjoint cycles, the perimeter minus one segment, a Hamiltonian path through all lattice points and that path cut in two.  Oracle: empty, or exactly one simple cycle / path "
         "(degrees + one component); for each admitted subset a second solve with OR(passed[v] != visited[v]) must be UNSAT."
         % (
             "n<=4 with <=4 edges" if tier == "quick" else "n=2..4 with <=4/6/5 edges",
@@ -189,7 +243,7 @@ def main(tier, seed, only=None):
         "native route decided by the harness backend with R-native semantics on the line graph (mc/native_backend.py)",
         "a loop (u, u) is outside the quantifier",
     ]
-    shards = gcheck.split_shards(cases, lambda c: 1 << nedges(c), 300)
+    shards = gcheck.split_shards(cases, lambda c: 40 * len(c['patterns']) if 'patterns' in c else 1 << nedges(c), 300)
     par.run_shards(run, worker, shards, seed)
     cov = {
         "evaluations": run.c("evaluations"),
